@@ -373,6 +373,13 @@ Theorem C19_old_validate_kFlowDecomp_refuted_non_tuple_item : exists i, Validate
 Proof. exact ValidateOldRefuted.old_validate_kFlowDecomp_refuted_non_tuple_item. Qed.
 Print Assumptions C19_old_validate_kFlowDecomp_refuted_non_tuple_item.
 
+(* AbstractPathModelDAG:accepted:coverage_length-out-of-range-without-constraints — [old_validate_kPathCover] is the current
+   kPathCover with the coverage_length range test still under `if len(subpath_constraints) > 0` *)
+Theorem C19_old_validate_kPathCover_refuted_coverage_length :
+  exists i, in_domain_kPathCover i = false /\ old_validate_kPathCover i = Accept.
+Proof. exact old_validate_kPathCover_refuted_coverage_length. Qed.
+Print Assumptions C19_old_validate_kPathCover_refuted_coverage_length.
+
 (* repaired by 65c87ad *)
 Theorem C19_old_accepts_domain_MinPathCoverCycles_refuted_lowerbound_ignores_starts :
   exists i, ValidateOld.in_domain_MinPathCoverCycles i = true /\ ValidateOld.validate_MinPathCoverCycles i = ValidateOld.RaiseValueError.
@@ -407,7 +414,9 @@ Example C19_nonvacuous_invalid :
    in_domain_kLeastAbsErrors (set_covlen (set_cons ex_dag one (3#2)%Q) (Some (1#2)%Q) true) = false /\
    validate_kLeastAbsErrors (set_covlen (set_cons ex_dag one 1%Q) (Some (1#2)%Q) true) = Accept /\
    validate_kLeastAbsErrors (set_covlen (set_cons ex_dag one 1%Q) (Some (1#2)%Q) false) = RaiseValueError /\
-   validate_kLeastAbsErrors (set_covlen (set_cons ex_dag one (1#2)%Q) (Some (1#2)%Q) true) = RaiseValueError) /\
+   validate_kLeastAbsErrors (set_covlen (set_cons ex_dag one (1#2)%Q) (Some (1#2)%Q) true) = RaiseValueError /\
+   validate_kLeastAbsErrors (set_covlen ex_dag (Some (3#2)%Q) true) = RaiseValueError /\
+   in_domain_kLeastAbsErrors (set_covlen ex_dag (Some (3#2)%Q) true) = false) /\
   validate_stDiGraph (set_starts ex_graph false []) = RaiseValueError /\
   validate_MinErrorFlow (set_flags ex_graph false true true [true; false]) = RaiseValueError.
 Proof. vm_compute. repeat split; reflexivity. Qed.
